@@ -19,9 +19,11 @@ VARIABLES tid,        \* trace being validated
           verdict,    \* "ok" or the name of the first failing clause
           obsHanded,  \* observation history: before+after of every successful call
           rdy,        \* characters that were readable (kernel-held) when the outstanding call started
-          recv0       \* Len(recv) when the outstanding call started
+          recv0,      \* Len(recv) when the outstanding call started
+          tbl,        \* run(): response kind of every event, in the order of the event table (<<>>: not inside run())
+          owe         \* run(): the last outcome selected an event whose response (a string) has not been sent yet
 
-tvars == <<recv, pend, handed, eof, phase, call, last, tid, l, verdict, obsHanded, rdy, recv0>>
+tvars == <<recv, pend, handed, eof, phase, call, last, tid, l, verdict, obsHanded, rdy, recv0, tbl, owe>>
 
 Ev == Traces[tid].ev
 E  == Ev[l]
@@ -31,7 +33,7 @@ Step == l' = l + 1 /\ tid' = tid
 Fail(v) == verdict' = v /\ UNCHANGED avars
 Same == UNCHANGED <<verdict>>
 
-TInit == /\ AInit /\ tid = 1 /\ l = 1 /\ verdict = "ok" /\ obsHanded = <<>> /\ rdy = 0 /\ recv0 = 0
+TInit == /\ AInit /\ tid = 1 /\ l = 1 /\ verdict = "ok" /\ obsHanded = <<>> /\ rdy = 0 /\ recv0 = 0 /\ tbl = <<>> /\ owe = FALSE
 
 FirstFailing(cs) ==   \* cs: sequence of <<holds, name>>
   LET bad == {i \in 1..Len(cs) : ~cs[i][1]} IN
@@ -39,11 +41,11 @@ FirstFailing(cs) ==   \* cs: sequence of <<holds, name>>
 
 TCall ==
   /\ Has("call")
-  /\ IF phase = "idle"
-     THEN Call(E.pats, E.W, E.tmo, E.exact) /\ Same
-     ELSE Fail("harness:call-while-outstanding")
+  /\ IF phase # "idle" THEN Fail("harness:call-while-outstanding")
+     ELSE IF owe THEN Fail("C12:matched-event-not-answered")
+     ELSE Call(E.pats, E.W, E.tmo, E.exact) /\ Same
   /\ rdy' = E.ready /\ recv0' = Len(recv)
-  /\ Step /\ UNCHANGED obsHanded
+  /\ Step /\ UNCHANGED <<obsHanded, tbl, owe>>
 
 TRead ==
   /\ Has("read")
@@ -51,31 +53,31 @@ TRead ==
      THEN ReadData(E.d) /\ Same
      ELSE Fail(IF phase = "idle" THEN "C03:read-after-contract-returned"
                ELSE IF eof THEN "C04:read-data-after-eof" ELSE "C05:read-with-negative-timeout")
-  /\ Step /\ UNCHANGED <<obsHanded, rdy, recv0>>
+  /\ Step /\ UNCHANGED <<obsHanded, rdy, recv0, tbl, owe>>
 
 TReadEof ==
   /\ Has("reof")
   /\ IF phase = "loop" /\ call.tmo # "neg"
      THEN ReadEOF /\ Same
      ELSE Fail(IF phase = "idle" THEN "C03:read-after-contract-returned" ELSE "C05:read-with-negative-timeout")
-  /\ Step /\ UNCHANGED <<obsHanded, rdy, recv0>>
+  /\ Step /\ UNCHANGED <<obsHanded, rdy, recv0, tbl, owe>>
 
 TReadTmo ==
   /\ Has("rtmo")
   /\ IF phase = "loop" /\ call.tmo \notin {"neg"}
      THEN (IF call.tmo = "none" THEN Fail("harness:read-timeout-with-timeout-None") ELSE Timeout /\ Same)
      ELSE Fail(IF phase = "idle" THEN "C03:read-after-contract-returned" ELSE "C05:read-with-negative-timeout")
-  /\ Step /\ UNCHANGED <<obsHanded, rdy, recv0>>
+  /\ Step /\ UNCHANGED <<obsHanded, rdy, recv0, tbl, owe>>
 
 TReadErr ==
   /\ Has("rerr")
   /\ IF phase = "loop" THEN ReadError /\ Same ELSE Fail("C03:read-after-contract-returned")
-  /\ Step /\ UNCHANGED <<obsHanded, rdy, recv0>>
+  /\ Step /\ UNCHANGED <<obsHanded, rdy, recv0, tbl, owe>>
 
 TSetBuf ==
   /\ Has("setbuf")
   /\ SetBuffer(E.v) /\ Same
-  /\ Step /\ obsHanded' = obsHanded /\ UNCHANGED <<rdy, recv0>>
+  /\ Step /\ obsHanded' = obsHanded /\ UNCHANGED <<rdy, recv0, tbl, owe>>
 
 \* asyncio path: a chunk handed to the protocol after the future was resolved or cancelled.
 \* If the contract still has the call outstanding, the only explanation is that its deadline fired.
@@ -90,7 +92,7 @@ TLate ==
      ELSE IF phase = "idle" /\ ~eof
      THEN /\ LateData(E.d) /\ Same
      ELSE Fail("C14:data-after-eof-or-late-data-without-deadline")
-  /\ Step /\ UNCHANGED <<obsHanded, rdy, recv0>>
+  /\ Step /\ UNCHANGED <<obsHanded, rdy, recv0, tbl, owe>>
 
 \* The expected outcome at a `ret`: the contract's last outcome, or - when the
 \* call's own deadline fired without a read raising TIMEOUT - the Timeout outcome.
@@ -143,7 +145,40 @@ TRet ==
            ELSE UNCHANGED avars
         /\ obsHanded' = IF o.kind = "match" THEN obsHanded \o o.before \o o.after
                         ELSE IF o.kind = "eof" THEN obsHanded \o o.before ELSE obsHanded
-  /\ Step /\ UNCHANGED <<rdy, recv0>>
+  /\ owe' = (tbl # <<>> /\ E.idx >= 0 /\ E.idx < Len(tbl) /\ tbl[E.idx + 1] \in {"str", "cb_str"})
+  /\ Step /\ UNCHANGED <<rdy, recv0, tbl>>
+
+(* ---- run(): the loop around expect (C12) ------------------------------------------------- *)
+TRunStart ==
+  /\ Has("run")
+  /\ tbl' = E.resp /\ owe' = FALSE /\ Same
+  /\ Step /\ UNCHANGED <<avars, obsHanded, rdy, recv0>>
+
+\* a response was written to the child: exactly one per occurrence of an event whose response is a string
+TSend ==
+  /\ Has("send")
+  /\ verdict' = FirstFailing(<< <<tbl # <<>>, "harness:send-outside-run">>,
+                                <<owe, "C12:response-sent-twice-or-without-occurrence">>,
+                                <<E.idx = last.idx, "C12:response-of-another-event">> >>)
+  /\ owe' = FALSE
+  /\ Step /\ UNCHANGED <<avars, obsHanded, rdy, recv0, tbl>>
+
+\* a callback ran: for the event that was just selected, with the state dictionary
+TCb ==
+  /\ Has("cb")
+  /\ verdict' = FirstFailing(<< <<E.idx = last.idx, "C12:callback-of-another-event">>,
+                                <<E.dict_ok, "C12:callback-without-state-dictionary">> >>)
+  /\ Step /\ UNCHANGED <<avars, obsHanded, rdy, recv0, tbl, owe>>
+
+\* run() returned: the child's whole output up to the stop point, each piece once
+TRunRet ==
+  /\ Has("runret")
+  /\ LET want == obsHanded \o (IF last.kind = "timeout" THEN pend ELSE <<>>) IN
+     verdict' = FirstFailing(<< <<~owe, "C12:matched-event-not-answered">>,
+                                <<E.result = want, "C12:output-not-exactly-once">>,
+                                <<E.order_ok, "C12:event-priority-order">> >>)
+  /\ tbl' = <<>> /\ owe' = FALSE
+  /\ Step /\ UNCHANGED <<avars, obsHanded, rdy, recv0>>
 
 \* file-like entry points are derived calls: their return value is a function of the outcome
 TFlRet ==
@@ -153,7 +188,7 @@ TFlRet ==
                    [] E.fn = "readline" -> IF last.kind = "match" THEN last.before \o last.after ELSE last.before
                    [] OTHER -> <<>>
      IN verdict' = IF E.val = want THEN "ok" ELSE "C01:file-like-return-value"
-  /\ Step /\ UNCHANGED <<avars, obsHanded, rdy, recv0>>
+  /\ Step /\ UNCHANGED <<avars, obsHanded, rdy, recv0, tbl, owe>>
 
 \* the contract's own invariants are evaluated after every event (they hold by
 \* construction: a violation here is a bug of the specification, status 2)
@@ -162,11 +197,11 @@ TNextTrace ==
   /\ (l > Len(Ev) \/ verdict # "ok")
   /\ PrintT(<<"VERDICT", tid, Traces[tid].id, verdict, l>>)
   /\ tid < Len(Traces)
-  /\ tid' = tid + 1 /\ l' = 1 /\ verdict' = "ok" /\ obsHanded' = <<>> /\ rdy' = 0 /\ recv0' = 0
+  /\ tid' = tid + 1 /\ l' = 1 /\ verdict' = "ok" /\ obsHanded' = <<>> /\ rdy' = 0 /\ recv0' = 0 /\ tbl' = <<>> /\ owe' = FALSE
   /\ recv' = <<>> /\ pend' = <<>> /\ handed' = <<>> /\ eof' = FALSE
   /\ phase' = "idle" /\ call' = NoCall /\ last' = NoOutcome
 
-TNext == TCall \/ TLate \/ TRead \/ TReadEof \/ TReadTmo \/ TReadErr \/ TSetBuf \/ TRet \/ TFlRet \/ TNextTrace
+TNext == TCall \/ TRunStart \/ TSend \/ TCb \/ TRunRet \/ TLate \/ TRead \/ TReadEof \/ TReadTmo \/ TReadErr \/ TSetBuf \/ TRet \/ TFlRet \/ TNextTrace
 
 TraceSpec == TInit /\ [][TNext]_tvars
 
